@@ -143,10 +143,13 @@ type Blob struct {
 	// PayloadEnd is the offset where the data streams end (gzip: TOCOffset; zstd: start of
 	// the skippable frame that wraps the manifest; external: start of the footer).
 	PayloadEnd int64
-	TOCJSON    []byte // exact TOC JSON bytes
-	TOCDigest  string // "sha256:<hex of sha256(TOCJSON)>"
-	Version    int
-	Entries    []*Entry
+	// ExternalTOCTrailing is the number of bytes that follow the first gzip member of the
+	// separate TOC blob (external TOC only; a well-formed TOC blob has 0).
+	ExternalTOCTrailing int
+	TOCJSON             []byte // exact TOC JSON bytes
+	TOCDigest           string // "sha256:<hex of sha256(TOCJSON)>"
+	Version             int
+	Entries             []*Entry
 
 	streamOffsets []int64
 }
@@ -285,38 +288,54 @@ func parseZstdFooter(blob []byte) (off, clen, ulen int64, err error) {
 // entry is stargz.index.json. It returns the JSON and the number of compressed bytes
 // that are NOT part of that single member (must be 0 for an embedded TOC region).
 func tocFromGzipTar(region []byte) ([]byte, error) {
+	js, trailing, err := tocFromFirstGzipMember(region)
+	if err != nil {
+		return nil, err
+	}
+	if trailing != 0 {
+		return nil, fmt.Errorf("TOC: %d bytes follow the TOC gzip member inside the TOC region", trailing)
+	}
+	return js, nil
+}
+
+// tocFromFirstGzipMember reads the TOC from the FIRST gzip member of p (what a consumer of
+// an external TOC blob does) and reports how many bytes follow that member.
+func tocFromFirstGzipMember(region []byte) (js []byte, trailing int, err error) {
+	js, trailing, err = tocFirstMember(region)
+	return
+}
+
+func tocFirstMember(region []byte) ([]byte, int, error) {
 	if !bytes.HasPrefix(region, gzipMagic) {
-		return nil, errors.New("TOC: no gzip magic at the TOC offset")
+		return nil, 0, errors.New("TOC: no gzip magic at the TOC offset")
 	}
 	br := bytes.NewReader(region)
 	zr, err := gzip.NewReader(br)
 	if err != nil {
-		return nil, fmt.Errorf("TOC: %v", err)
+		return nil, 0, fmt.Errorf("TOC: %v", err)
 	}
 	zr.Multistream(false)
 	raw, err := io.ReadAll(zr)
 	if err != nil {
-		return nil, fmt.Errorf("TOC: gunzip: %v", err)
+		return nil, 0, fmt.Errorf("TOC: gunzip: %v", err)
 	}
-	if br.Len() != 0 {
-		return nil, fmt.Errorf("TOC: %d bytes follow the TOC gzip member inside the TOC region", br.Len())
-	}
+	trailing := br.Len()
 	tr := tar.NewReader(bytes.NewReader(raw))
 	h, err := tr.Next()
 	if err != nil {
-		return nil, fmt.Errorf("TOC: tar: %v", err)
+		return nil, 0, fmt.Errorf("TOC: tar: %v", err)
 	}
 	if h.Name != TOCName {
-		return nil, fmt.Errorf("TOC: tar entry is named %q", h.Name)
+		return nil, 0, fmt.Errorf("TOC: tar entry is named %q", h.Name)
 	}
 	js, err := io.ReadAll(tr)
 	if err != nil {
-		return nil, fmt.Errorf("TOC: tar read: %v", err)
+		return nil, 0, fmt.Errorf("TOC: tar read: %v", err)
 	}
 	if _, err := tr.Next(); err != io.EOF {
-		return nil, fmt.Errorf("TOC: something follows the TOC entry in its tar (err=%v)", err)
+		return nil, 0, fmt.Errorf("TOC: something follows the TOC entry in its tar (err=%v)", err)
 	}
-	return js, nil
+	return js, trailing, nil
 }
 
 // Parse reads footer and TOC. externalTOC is the separate gzip'ed tar of an
@@ -354,11 +373,14 @@ func Parse(blob []byte, externalTOC []byte) (*Blob, error) {
 		if len(externalTOC) == 0 {
 			return nil, errors.New("specread: external-TOC blob but no TOC supplied")
 		}
-		js, err := tocFromGzipTar(externalTOC)
+		// a consumer of the separate TOC blob reads its first gzip member; anything after it
+		// is reported, not refused, so that callers can judge the TOC that would be used
+		js, trailing, err := tocFromFirstGzipMember(externalTOC)
 		if err != nil {
 			return nil, err
 		}
 		b.TOCJSON = js
+		b.ExternalTOCTrailing = trailing
 	case FormatZstdChunked:
 		off, clen, ulen, _ := parseZstdFooter(blob)
 		b.FooterSize = 8 + FooterSizeZstd
